@@ -172,10 +172,11 @@ class Crate:
                 g.attr = Attr(self.span_text(g.call_site))
             except (OSError, IndexError):
                 g.attr = None
-            top = [d for d in g.defs if len(d["expn"]) == 1]
-            mods = [d for d in top if d["kind"] == "Mod"]
-            inh = [d for d in top if d["kind"] == "Impl" and d.get("of_trait") is None]
-            fns = [d for d in top if d["kind"] == "Fn" and d.get("parent_kind") == "Mod"]
+            paths = set(d["path"] for d in g.defs)
+            roots = [d for d in g.defs if d.get("parent") not in paths and d["kind"] != "Use"]
+            mods = [d for d in roots if d["kind"] == "Mod"]
+            inh = [d for d in roots if d["kind"] == "Impl" and d.get("of_trait") is None]
+            fns = [d for d in roots if d["kind"] == "Fn"]
             if mods:
                 g.mode = "mod"
                 g.module = mods[0].get("parent")
@@ -187,8 +188,8 @@ class Crate:
                 g.module = fns[0].get("parent")
             else:
                 g.mode = "trait"
-                tr = [d for d in top if d["kind"] == "Trait"]
-                g.module = tr[0].get("parent") if tr else (top[0].get("parent_module") if top else None)
+                tr = [d for d in roots if d["kind"] == "Trait"]
+                g.module = tr[0].get("parent") if tr else (roots[0].get("parent_module") if roots else None)
             out.append(g)
         return out
 
